@@ -85,7 +85,13 @@ def representation_error(mesh, refine, order, segmentwise=False, far=False):
     if far:
         # "for every closed surface": the same surface in map-style coordinates, far from the origin compared with its size
         grid = SG.make_grid(grid.vertices + FAR, grid.elements)
-    if segmentwise:
+    if segmentwise == "extended":
+        # segment 2: a cap plus isolated single triangles, so that segment-edge vertices with exactly one, two, ... outside elements all occur
+        z = grid.centroids[:, 2]
+        cut = np.quantile(z, 0.6)
+        di = np.array([2 if (z[i] > cut or (z[i] < cut - 0.3 and i % 9 == 4)) else 1 for i in range(grid.number_of_elements)], dtype="uint32")
+        grid = SG.make_grid(grid.vertices, grid.elements, di)
+    elif segmentwise:
         di = np.array([1 + (c[2] > np.median(grid.centroids[:, 2])) for c in grid.centroids], dtype="uint32")
         grid = SG.make_grid(grid.vertices, grid.elements, di)
     # potentials must depend on the REGULAR order only: the singular order is kept small and fixed
@@ -108,7 +114,12 @@ def representation_error(mesh, refine, order, segmentwise=False, far=False):
         total = np.zeros(pts.shape[1])
         pieces = [{"segments": [1]}, {"segments": [2]}] if segmentwise else [{}]
         for kw in pieces:
-            p1 = api.function_space(grid, "P", 1, include_boundary_dofs=True, truncate_at_segment_edge=True, **kw) if segmentwise else api.function_space(grid, "P", 1)
+            if segmentwise == "extended":
+                # the other documented way to split a continuous trace: piece 1 carries the hat functions of its closed segment, continued into the neighbouring
+                # elements (boundary dofs, no truncation); piece 2 only the hat functions of its interior vertices
+                p1 = api.function_space(grid, "P", 1, include_boundary_dofs=(kw["segments"] == [1]), truncate_at_segment_edge=False, **kw)
+            else:
+                p1 = api.function_space(grid, "P", 1, include_boundary_dofs=True, truncate_at_segment_edge=True, **kw) if segmentwise else api.function_space(grid, "P", 1)
             dp0 = api.function_space(grid, "DP", 0, **kw)
             slp = laplace.single_layer(dp0, pts, parameters=par)
             dlp = laplace.double_layer(p1, pts, parameters=par)
@@ -116,7 +127,8 @@ def representation_error(mesh, refine, order, segmentwise=False, far=False):
             gcoef = np.zeros(p1.global_dof_count)
             for E in p1.support_elements:
                 for f in range(3):
-                    gcoef[p1.local2global[E, f]] = a @ grid.vertices[:, grid.elements[f, E]] + b
+                    if p1.local_multipliers[E, f] != 0:      # slots without dof map to another dof of the element
+                        gcoef[p1.local2global[E, f]] = a @ grid.vertices[:, grid.elements[f, E]] + b
             psi = np.zeros(dp0.global_dof_count)
             for E in dp0.support_elements:
                 psi[dp0.local2global[E, 0]] = grid.normals[E] @ a
@@ -196,6 +208,7 @@ def main():
     run.add("PotentialAssembler.evaluate::complex-split", "bounded", ob_complex_split)
     run.add("representation.octa(refined 2)", "bounded", ob_representation, "octa", 2)
     run.add("representation.octa(refined 2): every regular order 8..20", "bounded", ob_order_sweep, "octa", 2)
+    run.add("representation.octa(refined 2, trace split into an extended piece and an interior piece)", "bounded", ob_representation, "octa", 2, "extended")
     run.add("representation.octa(refined 2, translated to (4e5, 5.5e6, 120))", "bounded", ob_representation, "octa", 2, False, True)
     if thorough:
         run.add("representation.cube12(refined 3)", "bounded", ob_representation, "cube12", 3)
